@@ -1,11 +1,295 @@
-import OsacaVerif.Model.ParseA64
+import OsacaVerif.Lemmas.A64Kinds
+import OsacaVerif.Lemmas.A64File
 /-
   C10 — AArch64 parser recovers every line and operand exactly as written.
+
+  Model: `Model/ParseA64.lean` (transcription of the pyparsing grammar of `ParserAArch64` and of its
+  post-processing; every literal regenerated from the source into `Gen/A64Grammar.lean`).
+  Specification: `Spec/RenderA64.lean` (instruction ASTs as written, their rendering under an arbitrary
+  layout, the expected result) and `Spec/FileLinesA64.lean` (lines of a file, blank lines).
+  All theorems hold for all inputs (unbounded numbers, operand lists, gaps, files).
 -/
 namespace OsacaVerif.Props.C10
-open OsacaVerif OsacaVerif.Text OsacaVerif.ParseA64 OsacaVerif.Gen
+open OsacaVerif OsacaVerif.Text OsacaVerif.ParseA64 OsacaVerif.Gen OsacaVerif.Spec.A64
 
-/-- the instruction grammar has the five operand slots the model transcribes -/
+/-! ### grammar constants the model's structure relies on -/
+/-- the instruction grammar has the five operand slots -/
 theorem operand_slots : A64.operandSlots = 5 := by decide
+/-- line numbers are 1-based -/
+theorem line_base : A64.lineBase = 1 := by decide
+
+/-! ### files: one entry per non-blank line, numbered and verbatim -/
+/-- the lines of a file are uniquely determined, and the model's `splitLines` computes them -/
+theorem lines_unique (content : Txt) (ls : List Txt) :
+    IsLinesOf content ls ↔ ls = splitLines content :=
+  ⟨isLinesOf_unique content ls, fun h => h ▸ isLinesOf_splitLines content⟩
+
+/-- **parseFile_lines** (∀ files, ∀ start offsets): the result has exactly one entry per non-blank line,
+    in file order, carrying the 1-based number of the line in the file (plus `start`) and its verbatim
+    text. -/
+theorem parseFile_lines (content : Txt) (start : Nat) (ls : List Txt) (hls : IsLinesOf content ls) :
+    FileSpec ls start ((parseFile content start).map entry) := by
+  have := isLinesOf_unique content ls hls
+  subst this
+  obtain ⟨h1, h2, h3⟩ := parseLinesFrom_spec start (splitLines content) 0
+  refine ⟨h1, ?_, ?_⟩
+  · intro e he
+    obtain ⟨j, hj, hn, hb⟩ := h2 e he
+    exact ⟨j, hj, by omega, hb⟩
+  · intro i l hi hb
+    have := h3 i l hi hb
+    simpa [parseFile] using this
+
+/-- line numbers are strictly increasing (the kernel well-formedness the later analyses rely on) -/
+theorem parseFile_wf (content : Txt) (start : Nat) :
+    ((parseFile content start).map (·.lineNo)).Pairwise (· < ·) := by
+  have := (parseLinesFrom_spec start (splitLines content) 0).1
+  simp only [parseFile]
+  rw [List.pairwise_map] at this ⊢
+  exact this
+
+/-- every entry is the parse of its own line -/
+theorem parseFile_each (content : Txt) (start : Nat) :
+    ∀ f ∈ parseFile content start, f.out = parseLine f.text :=
+  parseLinesFrom_out start (splitLines content) 0
+
+example : (parseFile (ofString "mov x0, x1\n\n \t\n// c\n.L1:") 7).map (fun f => (f.lineNo, toStr f.text)) =
+    [(8, "mov x0, x1"), (11, "// c"), (12, ".L1:")] := by decide +kernel
+
+/-! ### classification -/
+/-- which fields of `InstructionForm` `parse_line` fills for a line of each class -/
+structure Fields where
+  comment : Bool
+  label : Bool
+  directive : Bool
+  mnemonic : Bool
+  deriving DecidableEq, Repr
+
+def fieldsOf : Line → Fields
+  | .comment _ => ⟨true, false, false, false⟩
+  | .label _ c => ⟨c.isSome, true, false, false⟩
+  | .directive _ _ c => ⟨c.isSome, false, true, false⟩
+  | .instr _ _ c => ⟨c.isSome, false, false, true⟩
+
+def isCommentClass (f : Fields) : Prop := f.comment = true ∧ f.label = false ∧ f.directive = false ∧ f.mnemonic = false
+def isLabelClass (f : Fields) : Prop := f.label = true ∧ f.directive = false ∧ f.mnemonic = false
+def isDirectiveClass (f : Fields) : Prop := f.label = false ∧ f.directive = true ∧ f.mnemonic = false
+def isInstrClass (f : Fields) : Prop := f.label = false ∧ f.directive = false ∧ f.mnemonic = true
+
+/-- **classify_exclusive** (∀ lines): a successfully parsed line is exactly one of comment, label,
+    directive, instruction. -/
+theorem classify_exclusive (s : Txt) (l : Line) (_h : parseLine s = .ok l) :
+    let f := fieldsOf l
+    (isCommentClass f ∧ ¬ isLabelClass f ∧ ¬ isDirectiveClass f ∧ ¬ isInstrClass f) ∨
+    (¬ isCommentClass f ∧ isLabelClass f ∧ ¬ isDirectiveClass f ∧ ¬ isInstrClass f) ∨
+    (¬ isCommentClass f ∧ ¬ isLabelClass f ∧ isDirectiveClass f ∧ ¬ isInstrClass f) ∨
+    (¬ isCommentClass f ∧ ¬ isLabelClass f ∧ ¬ isDirectiveClass f ∧ isInstrClass f) := by
+  cases l <;> simp [fieldsOf, isCommentClass, isLabelClass, isDirectiveClass, isInstrClass]
+
+/-- the order of the attempts: comment, marker, label, directive, instruction — a line is given the
+    first class whose grammar accepts it (∀ lines) -/
+theorem classify_order (s : Txt) :
+    (∀ c, commentLine s = some c → parseLine s = .ok (.comment c)) ∧
+    (∀ c, commentLine s = none → llvmMarker s = some c → parseLine s = .ok (.comment c)) ∧
+    (∀ n c, commentLine s = none → llvmMarker s = none → labelLine s = some (n, c) →
+      parseLine s = .ok (.label n c)) ∧
+    (∀ n ps c, commentLine s = none → llvmMarker s = none → labelLine s = none →
+      directiveLine s = some (n, ps, c) → parseLine s = .ok (.directive n ps c)) ∧
+    (commentLine s = none → llvmMarker s = none → labelLine s = none → directiveLine s = none →
+      parseLine s = instrLine s) := by
+  refine ⟨?_, ?_, ?_, ?_, ?_⟩
+  · intro c h; simp [parseLine, h]
+  · intro c h1 h2; simp [parseLine, h1, h2]
+  · intro n c h1 h2 h3; simp [parseLine, h1, h2, h3]
+  · intro n ps c h1 h2 h3 h4; simp [parseLine, h1, h2, h3, h4]
+  · intro h1 h2 h3 h4; simp [parseLine, h1, h2, h3, h4]
+
+/-- an instruction never comes out of `instrLine` as another class -/
+theorem instrLine_class (s : Txt) (l : Line) (h : instrLine s = .ok l) : isInstrClass (fieldsOf l) := by
+  unfold instrLine at h
+  split at h
+  · cases h
+  · split at h
+    · cases h; simp [fieldsOf, isInstrClass]
+    · cases h
+    · cases h
+
+example : parseLine (ofString "// a  b") = .ok (.comment (ofString "a b")) ∧
+    parseLine (ofString ".L1: // x") = .ok (.label (ofString ".L1") (some (ofString "x"))) ∧
+    parseLine (ofString ".align 4") = .ok (.directive (ofString "align") [ofString "4"] none) ∧
+    parseLine (ofString "ret") = .ok (.instr (ofString "ret") [] none) := by decide +kernel
+
+/-- **comment lines** (∀ words, ∀ gaps): `//` and any words in any layout are a comment whose text is the
+    words joined by single blanks -/
+theorem comment_line_roundtrip (g : Txt) (xs : List (Txt × Txt)) (gEnd : Txt) (hg : Blank g)
+    (hx : BodyOk xs) (hgE : Blank gEnd) :
+    parseLine (g ++ 47 :: 47 :: commentBody xs gEnd) = .ok (.comment (joinSp (xs.map (·.2)))) := by
+  obtain ⟨r, hc, hr⟩ := commentP_body g xs gEnd hg hx hgE
+  simp [parseLine, commentLine, hc, atEnd, hr]
+
+example : BodyOk [([32], ofString "ab"), ([9, 32], ofString "c")] := by
+  simp [BodyOk, FirstGapNe, Blank, IsWord, ofString]; decide
+
+/-! ### numbers -/
+/-- decimal numerals (∀ n): the digits of `n` read back give `n` -/
+theorem decimal_roundtrip (n : Nat) : natOfDigits 10 (showNat n) = n := natOfDigits_showNat n
+/-- **immediates round-trip, decimal** (∀ n): `int(str(n), 0) = n` and `int("-"+str(n), 0) = -n` -/
+theorem imm_dec_roundtrip (n : Nat) :
+    pyInt0 (showNat n) = some (n : Int) ∧ pyInt0 (45 :: showNat n) = some (- (n : Int)) :=
+  ⟨pyInt0_showNat n, pyInt0_neg_showNat n⟩
+/-- **immediates round-trip, hexadecimal** (∀ n, lower- and upper-case digits) -/
+theorem imm_hex_roundtrip (up : Bool) (n : Nat) :
+    pyInt0 (48 :: 120 :: showHex up n) = some (n : Int) ∧
+    pyInt0 (45 :: 48 :: 120 :: showHex up n) = some (- (n : Int)) :=
+  ⟨pyInt0_showHex up n, pyInt0_neg_showHex up n⟩
+/-- the grammar reads a written integer immediate (∀ value, sign, `#` or not, decimal or hexadecimal,
+    ∀ gap in front, anything `Follow` behind) as the number text, and post-processing gives its value -/
+theorem imm_parse_roundtrip (g : Txt) (i : IntA) (rest : Txt) (hg : Blank g) (hf : Follow rest) :
+    immediate (g ++ (intText i ++ rest)) = some (.num (optNeg i.neg ++ intDigits i), rest) ∧
+    processImmediate (.num (optNeg i.neg ++ intDigits i)) = .ok (.imm (.int (intVal i))) :=
+  ⟨immediate_int g i rest hg hf, processImmediate_int i⟩
+
+example : pyInt0 (ofString "-0x1F") = some (-31) ∧ pyInt0 (ofString "010") = none ∧
+    showNat 4096 = ofString "4096" ∧ showHex true 48879 = ofString "BEEF" := by decide +kernel
+
+/-! ### register ranges -/
+theorem mapE_ok {α β : Type} (f : α → Except Err β) (g : α → β) (l : List α) (h : ∀ x ∈ l, f x = .ok (g x)) :
+    mapE f l = .ok (l.map g) := by
+  induction l with
+  | nil => rfl
+  | cons x l ih =>
+    simp [mapE, h x (by simp), ih (fun y hy => h y (by simp [hy]))]
+
+theorem rangeNames_eq (a k : Nat) : rangeNames a k = (List.range k).map (a + ·) := by
+  induction k generalizing a with
+  | zero => rfl
+  | succ k ih =>
+    rw [rangeNames, ih (a + 1), List.range_succ_eq_map]
+    simp [List.map_map, Function.comp_def]; intro x _; omega
+
+/-- member `n` of a range: a copy of the first register with the name replaced -/
+def rangeMember (ix : Option Txt) (first : Elem) (p : Txt) (n : Nat) : Reg :=
+  { pre := lower p, name := showNat n, shape := first.shape.map lower, lanes := first.lanes,
+    index := (match ix with | some i => some i | none => first.index), pred := none }
+
+/-- **range_expand** (∀ A ≤ B, ∀ first register, ∀ list index): `{rA - rB}` expands to exactly the
+    registers `A, A+1, …, B` (B − A + 1 of them), each a copy of the first with its number replaced -/
+theorem range_expand (ix : Option Txt) (first : Elem) (p : Txt) (hp : first.pre = some p) (a b : Nat)
+    (_hab : a ≤ b) :
+    expandRange ix first a b = .ok ((List.range (b + 1 - a)).map (fun i => rangeMember ix first p (a + i))) := by
+  have hinc : A64.rangeInclusive = 1 := by decide
+  unfold expandRange
+  rw [hinc, rangeNames_eq, mapE_ok _ (rangeMember ix first p)]
+  · simp [List.map_map, Function.comp_def]
+  · intro n _
+    cases ix <;> simp [processElem, processRegister, RegTok.ofElem, hp, rangeMember]
+
+theorem range_expand_length (ix : Option Txt) (first : Elem) (p : Txt) (hp : first.pre = some p) (a b : Nat)
+    (hab : a ≤ b) : ∃ rs, expandRange ix first a b = .ok rs ∧ rs.length = b - a + 1 := by
+  refine ⟨_, range_expand ix first p hp a b hab, ?_⟩
+  simp; omega
+
+example : (match expandRange none { pre := some [118], name := some [48], shape := some [83] } 0 2 with
+    | .ok rs => rs | .error _ => []) =
+    [{ pre := [118], name := [48], shape := some [115] }, { pre := [118], name := [49], shape := some [115] },
+     { pre := [118], name := [50], shape := some [115] }] := by decide +kernel
+
+/-! ### memory operands: scale -/
+/-- **scale = 2^n** (∀ n, ∀ of the scaling operators `lsl`, `uxtw`, `sxtw`, `sxtx` in any case): an index
+    register shifted by `n` gives scale `2^n` -/
+theorem scale_pow2 (ix : RegTok) (op : Txt) (n : Nat)
+    (hop : ix.shiftOp = some op) (hsh : ix.shift = some (.num (showNat n)))
+    (hvalid : lower op ∈ [ofString "lsl", ofString "uxtw", ofString "sxtw", ofString "sxtx"]) :
+    memScaleOf (some ix) = .ok (2 ^ n) := by
+  have hv : A64.validShiftOps.contains (lower op) = true := by
+    simp at hvalid
+    rcases hvalid with h | h | h | h <;> rw [h] <;> decide
+  have hbase : A64.scaleBase = 2 := by decide
+  have hv' : lower op ∈ A64.validShiftOps := by simpa using hv
+  simp [memScaleOf, hop, hsh, hv', pyInt10_showNat, hbase]
+
+/-- without a shift amount the scale is 1 -/
+theorem scale_default (ix : RegTok) (hsh : ix.shift = none) : memScaleOf (some ix) = .ok 1 := by
+  have hd : A64.defaultScale = 1 := by decide
+  simp [memScaleOf, hsh, hd]
+
+/-- the scale of a processed memory operand is the one computed from its index (∀ memory operands) -/
+theorem processMemory_scale (m : MemTok) (r : Mem) (h : processMemory m = .ok r) :
+    memScaleOf m.index = .ok r.scale := by
+  unfold processMemory at h
+  split at h <;> try cases h
+  rename_i off sc po h1 h2 h3
+  split at h <;> try cases h
+  split at h <;> try cases h
+  rw [h2]
+
+example : (match parseLine (ofString "ldr x0, [x1, w2, SXTW #3]") with
+    | .ok (.instr _ [_, .mem m] _) => m.scale
+    | _ => 0) = 8 := by decide +kernel
+
+/-! ### round trip of rendered instruction lines -/
+/-- operand kinds for which the full round trip is closed so far -/
+inductive CoveredKind : OpA → Prop where
+  | scalar (p n : Nat) (hp : isScalarPrefixC p = true) : CoveredKind (.reg (.scalar p n))
+  | int (i : IntA) : CoveredKind (.int i)
+
+theorem coveredKind_covered (o : OpA) (h : CoveredKind o) (last : Bool) : CoveredOp last o := by
+  cases h with
+  | scalar p n hp => exact covered_scalar last p n hp
+  | int i => exact covered_int last i
+
+theorem opsCovered_of_kinds (os : List OpA) (h : ∀ o ∈ os, CoveredKind o) : OpsCovered os := by
+  induction os with
+  | nil => trivial
+  | cons o os ih =>
+    exact ⟨coveredKind_covered o (h o (by simp)) _, ih (fun x hx => h x (by simp [hx]))⟩
+
+/-
+  TODO-FULL  a64_roundtrip: for every instruction AST `a` of the property's domain (`InstrOk a`, operands
+  in valid order with every kind of `Spec.A64.OpA`: all registers incl. aliases, vectors, predicates,
+  lists and ranges, integer and floating-point immediates, shifted immediates, condition codes,
+  identifiers, prefetch operations, memory references) and every layout,
+      parseLine (render a gaps) = .ok (expectLine a).
+  Proved below for the operand kinds of `CoveredKind`; the general machinery (`roundtrip_covered`) is
+  independent of the kinds: a further kind needs only its `CoveredOp` lemma.
+-/
+
+/-- **a64_roundtrip_partial** (∀ mnemonics, ∀ operand lists of up to five operands whose kinds are
+    scalar registers `[xwbhsdq]N` in either case (∀ N) and integer immediates (∀ values; decimal or
+    hexadecimal with lower/upper-case digits; with or without `#`; signed), ∀ layouts — blanks and tabs
+    in every gap —, ∀ trailing comments): the rendered line is classified as an instruction, and
+    mnemonic, operands and comment are recovered exactly as written. -/
+theorem a64_roundtrip_partial (a : InstrA) (gaps : List Txt) (hok : InstrOk a)
+    (hkinds : ∀ o ∈ a.ops, CoveredKind o) (hl : LayoutOk (linePieces a) gaps) :
+    parseLine (render a gaps) = .ok (expectLine a) :=
+  roundtrip_covered a gaps hok (opsCovered_of_kinds a.ops hkinds) hl
+
+/-- executable check of `LayoutOk` (for examples) -/
+def layoutOkB : List Piece → List Txt → Bool
+  | [], gs => match gs with | [g] => g.all isBlankC | _ => false
+  | p :: ps, g :: gs => g.all isBlankC && (p.2 != 2 || !g.isEmpty) && layoutOkB ps gs
+  | _ :: _, [] => false
+
+theorem layoutOkB_sound (ps : List Piece) (gs : List Txt) (h : layoutOkB ps gs = true) : LayoutOk ps gs := by
+  induction ps generalizing gs with
+  | nil =>
+    match gs, h with
+    | [g], h => exact ⟨g, rfl, h⟩
+  | cons p ps ih =>
+    match gs, h with
+    | g :: gs, h =>
+      simp only [layoutOkB, Bool.and_eq_true] at h
+      refine ⟨h.1.1, ?_, ih gs h.2⟩
+      intro hp hg
+      have := h.1.2
+      simp [hp, hg] at this
+
+-- non-vacuity: a concrete instruction, layout and the resulting line
+example :
+    let a : InstrA := ⟨ofString "madd", [.reg (.scalar 120 0), .reg (.scalar 87 12), .int ⟨true, true, true, false, 255⟩,
+      .int ⟨false, false, false, false, 7⟩], some [ofString "c1", ofString "c2"]⟩
+    let gaps : List Txt := [[9], [32], [], [32], [], [], [32, 32], [9], [32], [], [32], [9]]
+    layoutOkB (linePieces a) gaps = true ∧ render a gaps = ofString "\tmadd x0, W12,#-0xff  ,\t7 //c1 c2\t" ∧
+    parseLine (render a gaps) = .ok (expectLine a) := by decide +kernel
 
 end OsacaVerif.Props.C10
